@@ -5,6 +5,7 @@ import (
 
 	"fmt"
 	"go/ast"
+	"go/token"
 	"go/types"
 	"sort"
 	"strings"
@@ -84,6 +85,8 @@ func checkC10(p *core.Program, r *core.Report) {
 	r.Rule("O10.2", "decoder reads the slots in the encoder's order")
 	r.Rule("O10.3", "decoder: coordinate k right-aligned at fixed width 32 in bytes [32k, 32k+32) of the buffer that is parsed")
 	r.Rule("O10.4", "decoder errors (number parsing, range, ReadFrom) propagate")
+	r.Rule("O10.6", "decoder range tests: Sign() < 0 (present, strict) and BitLen() > 256 — nothing else refuses a coordinate")
+	r.Rule("O10.7", "the decoded proof object is created (groth16.NewProof) by this call on every path before ReadFrom")
 	r.Rule("O10.5", "CLI: prove marshals through MarshalJSON; verify decodes into the proof type")
 	r.Trusted = append(r.Trusted, "gnark Proof.WriteRawTo order A.x A.y B.x1 B.x0 B.y1 B.y0 C.x C.y, 32 bytes each; ReadFrom accepts that encoding", "math/big SetBytes/Text/FillBytes", "encoding/json struct tags")
 	r.NotDecided = append(r.NotDecided, "that the decoded proof verifies", "gnark's coordinate order")
@@ -371,6 +374,13 @@ func checkC10(p *core.Program, r *core.Report) {
 		}
 		r.Check(guarded, "O10.3", dname+": range test before FillBytes", p.Pos(f.Instr.Pos()), "BitLen test dominates FillBytes (no panic on oversized coordinates)", "FillBytes panics when the value needs more than 32 bytes and no BitLen test dominates it")
 	}
+	// O10.6: the decoder refuses a coordinate exactly when it is negative or wider than 32 bytes. A sign test must be
+	// there (FillBytes and BitLen use the absolute value: "-0x…" would decode to the original proof) and must be strict
+	// (zero is a coordinate of the point at infinity); the width test must be BitLen() > 256.
+	checkProofRangeTests(p, r, dec, dname)
+	// O10.7: the proof object the bytes are read into is created by this call, unconditionally: decoding in place into
+	// whatever the receiver already holds rewrites every earlier copy of that Proof value
+	checkFreshProofObject(p, r, dec, dname)
 	// O10.4 errors
 	ix := indexFuncs(p)
 	if obj, ok := dec.Object().(*types.Func); ok {
@@ -473,4 +483,115 @@ func isFreshBuffer(t *tf.Term) bool {
 	}
 	_, ok := freshZeroBytes(t)
 	return ok
+}
+
+func checkProofRangeTests(p *core.Program, r *core.Report, dec *ssa.Function, dname string) {
+	var probs []string
+	nSign, nLen := 0, 0
+	for _, b := range dec.Blocks {
+		iff, ok := b.Instrs[len(b.Instrs)-1].(*ssa.If)
+		if !ok {
+			continue
+		}
+		bo, ok := iff.Cond.(*ssa.BinOp)
+		if !ok {
+			continue
+		}
+		method := func(v ssa.Value) string {
+			if c, ok := v.(*ssa.Call); ok {
+				if f := c.Common().StaticCallee(); f != nil && f.Signature.Recv() != nil && isBigIntType(f.Signature.Recv().Type()) {
+					return f.Name()
+				}
+			}
+			return ""
+		}
+		op, x, y := bo.Op, bo.X, bo.Y
+		m := method(x)
+		if m == "" {
+			if m = method(y); m != "" {
+				x, y = y, x
+				op = flipCmpTok(op)
+			}
+		}
+		if m == "" {
+			continue
+		}
+		k, isC := y.(*ssa.Const)
+		if !isC || k.Value == nil {
+			probs = append(probs, "the "+m+"() test at "+p.Pos(iff.Cond.Pos())+" compares with a non-constant")
+			continue
+		}
+		c := constantInt(k.Value)
+		switch m {
+		case "Sign":
+			nSign++
+			// accepted spellings of "negative": Sign() < 0, Sign() <= -1, Sign() == -1 (and their negations on the other edge)
+			okForm := (op == token.LSS && c == 0) || (op == token.LEQ && c == -1) || (op == token.EQL && c == -1) || (op == token.GEQ && c == 0) || (op == token.GTR && c == -1) || (op == token.NEQ && c == -1)
+			if !okForm {
+				probs = append(probs, fmt.Sprintf("the sign test at %s is Sign() %s %d: it must single out negative values only (zero is a coordinate of the point at infinity)", p.Pos(iff.Cond.Pos()), op, c))
+			}
+		case "BitLen":
+			nLen++
+			okForm := (op == token.GTR && c == 256) || (op == token.GEQ && c == 257) || (op == token.LEQ && c == 256) || (op == token.LSS && c == 257)
+			if !okForm {
+				probs = append(probs, fmt.Sprintf("the width test at %s is BitLen() %s %d, not BitLen() > 256", p.Pos(iff.Cond.Pos()), op, c))
+			}
+		case "Cmp", "CmpAbs", "IsInt64", "IsUint64", "Bit", "ProbablyPrime":
+			probs = append(probs, "a further test on the parsed coordinate ("+m+") at "+p.Pos(iff.Cond.Pos())+" can refuse values the encoder emits")
+		}
+	}
+	if nSign == 0 {
+		probs = append(probs, "no sign test: a negated coordinate (\"-0x…\") is placed by its absolute value and decodes to the original proof")
+	}
+	if nLen == 0 {
+		probs = append(probs, "no width test")
+	}
+	r.Check(len(probs) == 0, "O10.6", dname+": range tests", p.Pos(dec.Pos()), fmt.Sprintf("%d sign test(s) for negative only, %d width test(s) BitLen() > 256", nSign, nLen), strings.Join(probs, "; "))
+}
+
+func checkFreshProofObject(p *core.Program, r *core.Report, dec *ssa.Function, dname string) {
+	var readFrom *ssa.Call
+	for _, b := range dec.Blocks {
+		for _, in := range b.Instrs {
+			if c, ok := in.(*ssa.Call); ok && c.Common().IsInvoke() && c.Common().Method.Name() == "ReadFrom" {
+				readFrom = c
+			}
+		}
+	}
+	if readFrom == nil {
+		return // O10.3 reports the missing ReadFrom
+	}
+	ld, ok := readFrom.Common().Value.(*ssa.UnOp)
+	var fa *ssa.FieldAddr
+	if ok {
+		fa, _ = ld.X.(*ssa.FieldAddr)
+	}
+	if fa == nil {
+		// a local proof object: fine when it is the NewProof result itself
+		if c, ok := readFrom.Common().Value.(*ssa.Call); ok && c.Common().StaticCallee() != nil && strings.HasSuffix(c.Common().StaticCallee().String(), "groth16.NewProof") {
+			r.OK("O10.7", dname+": fresh proof object", p.Pos(readFrom.Pos()), "ReadFrom on the result of groth16.NewProof")
+			return
+		}
+		r.Undecided("O10.7", dname+": fresh proof object", p.Pos(readFrom.Pos()), "cannot tell which object ReadFrom fills")
+		return
+	}
+	fresh := false
+	for _, b := range dec.Blocks {
+		for _, in := range b.Instrs {
+			st, ok := in.(*ssa.Store)
+			if !ok {
+				continue
+			}
+			sfa, ok := st.Addr.(*ssa.FieldAddr)
+			if !ok || sfa.X != fa.X || sfa.Field != fa.Field {
+				continue
+			}
+			c, isCall := st.Val.(*ssa.Call)
+			if isCall && c.Common().StaticCallee() != nil && strings.HasSuffix(c.Common().StaticCallee().String(), "groth16.NewProof") && instrBefore(st, readFrom) {
+				fresh = true
+			}
+		}
+	}
+	r.Check(fresh, "O10.7", dname+": fresh proof object", p.Pos(readFrom.Pos()), "p.Proof = groth16.NewProof(…) precedes ReadFrom on every path",
+		"the object ReadFrom fills is not unconditionally a new one: decoding into a receiver that already holds a proof overwrites that object in place, and with it every copy of the Proof value taken earlier")
 }
